@@ -349,6 +349,156 @@ fn run_vec(c: &[i128]) -> Vec<i128> {
     }
 }
 
+// ---- derived sets with SEVERAL fields, each field with its own stack of checks (stage `set`) ----
+// a check written on a field must be applied to THAT field's account, whatever stands before it (other fields, fields the
+// derive skips, fields whose validation is skipped) and whichever validate id carries it
+#[derive(AccountSet, Debug)]
+#[account_set(skip_default_idl)]
+pub struct SetPlainAddr {
+    pub a: AccountInfo,
+    #[validate(address = &KEY_A)]
+    pub b: AccountInfo,
+}
+#[derive(AccountSet, Debug)]
+#[account_set(skip_default_idl)]
+pub struct SetAddrSigner {
+    #[validate(address = &KEY_A)]
+    pub a: AccountInfo,
+    pub b: Signer<AccountInfo>,
+}
+#[derive(AccountSet, Debug)]
+#[account_set(skip_default_idl)]
+pub struct SetSignerAddrMutAddr {
+    pub a: Signer<AccountInfo>,
+    #[validate(address = &KEY_B)]
+    pub b: Mut<AccountInfo>,
+    #[validate(address = &KEY_A)]
+    pub c: AccountInfo,
+}
+#[derive(AccountSet, Debug)]
+#[account_set(skip_default_idl)]
+pub struct SetMutPlainAddrSigner {
+    pub a: Mut<AccountInfo>,
+    pub b: AccountInfo,
+    #[validate(address = &KEY_A)]
+    pub c: Signer<AccountInfo>,
+}
+#[derive(AccountSet, Debug)]
+#[account_set(skip_default_idl)]
+pub struct SetFourLastAddr {
+    pub a: AccountInfo,
+    pub b: AccountInfo,
+    pub c: AccountInfo,
+    #[validate(address = &KEY_A)]
+    pub d: AccountInfo,
+}
+// a field the derive skips (no account, no validation) stands BEFORE the fields, another one between them
+#[derive(AccountSet, Debug)]
+#[account_set(skip_default_idl)]
+pub struct SetSkippedBefore {
+    #[account_set(skip = std::marker::PhantomData)]
+    pub p: std::marker::PhantomData<u64>,
+    pub a: Mut<AccountInfo>,
+    #[account_set(skip = ())]
+    pub q: (),
+    #[validate(address = &KEY_A)]
+    pub b: AccountInfo,
+}
+// the address pinned under the NAMED validate id on the second field (validated through `Strict` / through the default id)
+#[derive(AccountSet, Debug)]
+#[account_set(skip_default_idl)]
+#[validate(id = "strict", arg = Strict)]
+pub struct SetStrictSecond {
+    pub a: AccountInfo,
+    #[validate(id = "strict", address = &KEY_A)]
+    pub b: AccountInfo,
+}
+// nested: the fields flatten in declaration order
+#[derive(AccountSet, Debug)]
+#[account_set(skip_default_idl)]
+pub struct SetNested {
+    pub x: AccountInfo,
+    pub inner: SetPlainAddr,
+}
+// a field whose VALIDATION is skipped (`#[validate(skip)]`: decoded, no check at all) before the address-checked field
+#[derive(AccountSet, Debug)]
+#[account_set(skip_default_idl)]
+pub struct SetValidateSkipBefore {
+    #[validate(skip)]
+    pub a: AccountInfo,
+    #[validate(address = &KEY_A)]
+    pub b: AccountInfo,
+}
+
+/// decode all accounts into `T`, report how many were left over, validate with the default value of the argument `A`
+type SRunner = fn(&[AccountInfo], &mut Context, &mut usize) -> Result<()>;
+fn setrun<T, A>(accs: &[AccountInfo], ctx: &mut Context, left: &mut usize) -> Result<()>
+where
+    T: for<'a> AccountSetDecode<'a, ()> + AccountSetValidate<A>,
+    A: Default,
+{
+    let mut s = accs;
+    let mut set = <T as AccountSetDecode<()>>::decode_accounts(&mut s, (), ctx)?;
+    *left = s.len();
+    if *left != 0 {
+        return Ok(());
+    }
+    set.validate_accounts(A::default(), ctx)
+}
+/// shape number => the signature of every field (in declaration order, nested sets flattened) and the runner
+fn sfamily() -> Vec<(i128, Vec<&'static str>, SRunner)> {
+    vec![
+        (0, vec!["", "Aa"], setrun::<SetPlainAddr, ()> as SRunner),
+        (1, vec!["Aa", "S"], setrun::<SetAddrSigner, ()> as SRunner),
+        (2, vec!["S", "Ab M", "Aa"], setrun::<SetSignerAddrMutAddr, ()> as SRunner),
+        (3, vec!["M", "", "Aa S"], setrun::<SetMutPlainAddrSigner, ()> as SRunner),
+        (4, vec!["", "", "", "Aa"], setrun::<SetFourLastAddr, ()> as SRunner),
+        (5, vec!["M", "Aa"], setrun::<SetSkippedBefore, ()> as SRunner),
+        (6, vec!["", "Aa x1"], setrun::<SetStrictSecond, Strict> as SRunner),
+        (7, vec!["", "x4"], setrun::<SetStrictSecond, ()> as SRunner),
+        (8, vec!["", ".", "Aa ."], setrun::<SetNested, ()> as SRunner),
+        (9, vec!["", "Aa"], setrun::<SetValidateSkipBefore, ()> as SRunner),
+    ]
+}
+
+/// case: prog(32) shape nf  nf * (key(32) owner(32) signer writable nl <nl integers: the field's layers>)
+fn run_set(c: &[i128]) -> Vec<i128> {
+    let b32 = |s: &[i128]| -> [u8; 32] { s.iter().map(|x| *x as u8).collect::<Vec<_>>().try_into().unwrap() };
+    let prog = b32(&c[0..32]);
+    let (shape, nf) = (c[32], c[33] as usize);
+    let mut i = 34;
+    let mut natives = vec![];
+    let mut sigs: Vec<String> = vec![];
+    for _ in 0..nf {
+        if c.len() < i + 67 { return vec![-3] }
+        let key = b32(&c[i..i + 32]);
+        let owner = b32(&c[i + 32..i + 64]);
+        let (sg, wr, nl) = (c[i + 64] != 0, c[i + 65] != 0, c[i + 66] as usize);
+        i += 67;
+        if c.len() < i + nl { return vec![-3] }
+        let Some(sig) = sig_of(&c[i..i + nl]) else { return vec![-3] };
+        sigs.push(sig);
+        i += nl;
+        natives.push(NativeAccount::new(key, owner, 1, &[], sg, wr, false));
+    }
+    if i != c.len() { return vec![-3] }
+    let fam = sfamily();
+    let Some((_, want, f)) = fam.iter().find(|(n, _, _)| *n == shape) else { return vec![-4] };
+    // the case's per-field layer lists must be the ones of the selected shape
+    if want.len() != sigs.len() || want.iter().zip(sigs.iter()).any(|(w, s)| *w != s.as_str()) { return vec![-4] }
+    let accs: Vec<AccountInfo> = natives.iter().map(|n| n.info()).collect();
+    let prog_static: &'static Pubkey = Box::leak(Box::new(Pubkey::new_from_array(prog)));
+    let mut ctx = Context::new(prog_static);
+    let mut left = 0usize;
+    match guarded(|| f(&accs, &mut ctx, &mut left)) {
+        // the set did not take one account per field: the shape table is out of sync with the Rust type
+        Ok(_) if left != 0 => vec![-4],
+        Ok(Ok(())) => vec![0],
+        Ok(Err(e)) => vec![1, err_code(e) as i128],
+        Err(()) => vec![2],
+    }
+}
+
 fn sig_of(layers: &[i128]) -> Option<String> {
     let mut toks: Vec<String> = vec![];
     let mut i = 0;
@@ -413,6 +563,14 @@ fn main() {
         let mut o = Out::new();
         for (id, c) in &cases {
             o.line(id, &run_vec(c));
+        }
+        o.flush();
+        return;
+    }
+    if args.len() > 2 && args[2] == "set" {
+        let mut o = Out::new();
+        for (id, c) in &cases {
+            o.line(id, &run_set(c));
         }
         o.flush();
         return;
